@@ -94,10 +94,12 @@ def run(ctx):
     cyc = [x for x in walk_body_shallow(rra.body) if isinstance(x, ast.Call) and call_name(x) == "cycle"]
     need(len(cyc) == 1, "member cycle not found")
     arg = cyc[0].args[0]
-    srt = isinstance(arg, ast.Call) and call_name(arg) == "sorted"
+    def total_sort(e):
+        # sorted() by the element itself: a key function that does not separate every pair leaves ties in listing order
+        return isinstance(e, ast.Call) and call_name(e) == "sorted" and not [k for k in e.keywords if k.arg in ("key",)]
+    srt = total_sort(arg)
     if isinstance(arg, ast.Name):
-        srt = any(isinstance(x, ast.Assign) and unparse(x.targets[0]) == arg.id and isinstance(x.value, ast.Call) and
-                  call_name(x.value) == "sorted" for x in walk_body_shallow(rra.body))
+        srt = any(isinstance(x, ast.Assign) and unparse(x.targets[0]) == arg.id and total_sort(x.value) for x in walk_body_shallow(rra.body))
     r.check(srt, "%s#member-order-untainted" % rra.qname, "the member cycle is built from the member map without sorting",
             where(rra, cyc[0]), "assignment depends on the order in which members are listed")
 
@@ -138,7 +140,7 @@ def run(ctx):
             "not get the empty assignment", where(gen, gen.node), "a member decodes another member's partitions")
 
     # ---- R6 leader loads partitions first
-    r = ctx.rule("R6", "need-partitions signal -> load -> regenerate, before the sync request", 1, "B")
+    r = ctx.rule("R6", "need-partitions signal -> load -> regenerate, before the sync request", 2, "B")
     cj = ctx.cfg(jas)
     exc = [n for n in cj.nodes if n.kind == "except" and "_NeedTopicPartitions" in norm(n.stmt.type)]
     need(exc, "need-partitions handler not found in _join_and_sync")
@@ -154,6 +156,16 @@ def run(ctx):
         gv = unparse(regen[0].stmt.targets[0]) if isinstance(regen[0].stmt, ast.Assign) else None
         sc = [c for c in sync[0].calls() if call_name(c) == "send_sync_group_request"][0]
         ok = ok and gv is not None and sc.args and norm(sc.args[0]) == gv
+    gens = [c for n in cj.nodes for c in n.calls() if call_name(c) == "generate_assignments"]
+    fresh = True
+    for c in gens:
+        tp = kwarg(c, "topic_partitions", 1)
+        lv2 = unparse(load[0].stmt.targets[0]) if load and isinstance(load[0].stmt, ast.Assign) else None
+        if not ((isinstance(tp, ast.Dict) and not tp.keys) or (tp is not None and norm(tp) == lv2 and "self." not in norm(tp))):
+            fresh = False
+    r.check(bool(gens) and fresh, "%s#partition-map-fresh-per-join" % jas.qname,
+            "the leader assigns from a partition map that outlives the join (an attribute), not from `{}` / the lists it has just loaded",
+            where(jas, jas.node), "same member elected leader twice, partitions added in between: the new partitions are assigned to nobody")
     r.check(ok, "%s#load-then-assign-then-sync" % jas.qname, "the leader does not load the missing partition lists, regenerate "
             "the assignment from them and send that assignment", where(jas, exc[0].stmt))
 
@@ -168,6 +180,11 @@ MUTANTS = [
      "expect": "C15.R2"},
     {"id": "members-unsorted", "file": "_group.py", "old": "itertools.cycle(sorted(member_metadata.keys()))",
      "new": "itertools.cycle(member_metadata.keys())", "expect": "C15.R3"},
+    {"id": "members-sorted-by-weak-key", "file": "_group.py", "old": "itertools.cycle(sorted(member_metadata.keys()))",
+     "new": "itertools.cycle(sorted(member_metadata, key=lambda m: len(member_metadata[m].subscriptions)))", "expect": "C15.R3", "note": "seeded C15-5"},
+    {"id": "leader-caches-partition-map", "file": "_group.py",
+     "edits": [("_group.py", "                    topic_partitions={},", "                    topic_partitions=self.__dict__.setdefault('_tp', {}),")],
+     "expect": "C15.R6", "note": "seeded C15-4"},
     {"id": "partitions-unsorted", "file": "_group.py", "old": "        all_topic_partitions.sort()\n", "new": "", "expect": "C15.R3"},
     {"id": "double-advance", "file": "_group.py", "old": "            member_id = next(member_iter)\n\n            # Because",
      "new": "            member_id = next(member_iter)\n            member_id = next(member_iter)\n\n            # Because", "expect": "C15.R4"},
